@@ -115,6 +115,7 @@ func (p *Parser) Finish(seq Sequence) {
 }
 
 func (p *Parser) run() {
+	defer verifSched(p, 19)
 outer:
 	for {
 		verifSched(p, 10)
